@@ -94,9 +94,15 @@ def _call(con, fn, argvals, labels):
     res.checked = 4
     tmp = tempfile.mkdtemp(prefix="c10_")
     try:
+        # the reference is an independent twin (same source, same preparation): reading the original's parts here
+        # would load them all and hide a clone that misses the lazily loaded ones
+        tmp2 = os.path.join(tmp, "twin")
+        os.makedirs(tmp2)
+        twin = _open(argvals["source"], tmp2)
+        _prepare(twin, argvals["state"], tmp2)
+        before = _snapshot(twin)
         doc = _open(argvals["source"], tmp)
         _prepare(doc, argvals["state"], tmp)
-        before = _snapshot(doc)
         try:
             clone = doc.clone
         except Exception as e:  # noqa
